@@ -10,7 +10,7 @@ if ! patch -p1 -s < $in/patch.diff; then echo "{\"id\":\"$id\",\"applied\":false
 git diff -- src > $out/patch.diff
 cp -r $in/* $out/ 2>/dev/null; git -C $wt diff -- src > $out/patch.diff
 cmake -G Ninja -S $wt -B $wt/_build >/dev/null 2>&1 && cmake --build $wt/_build > $out/build.log 2>&1; brc=$?
-ct=$(ctest --test-dir $wt/_build -j6 --timeout 900 2>&1 | grep "tests passed" | tail -1)
+ct=$(ctest --test-dir $wt/_build -j3 --timeout 900 2>&1 | grep "tests passed" | tail -1)
 demo_mut=na; demo_base=na
 if [ -f $out/demo.sh ]; then
   chmod +x $out/demo.sh
